@@ -669,5 +669,5 @@ fn nontrivial(_op: &str, args: &[&str]) -> bool {
 
 fn main() {
     harness_main(Spec { prop: "C02", gen, exec, nontrivial, hang_secs: 20,
-        rule: "exhaustive: every shape (rank<=4 len<=3 quick / len<=4 thorough; rank 5 len<=2 / <=3) + zero-length axes in every position x every flat index 0..len+1 x every coordinate vector of the box enlarged by one per axis, wrong-length vectors, far-out values; + seeded random shapes rank<=5 len<=6. Big shapes (lib big_shapes: axis lengths 7..17, element counts up to 4900; every axis length 7..17 in leading/inner/trailing position of rank 1..3; power-of-two axis lengths 8..2048 in non-leading positions; rank 5; seeded random rank<=5 len<=20 (thorough <=40)): every flat index 0..len+1, every in-range coordinate vector and the one-off border (one component = its axis length, the others in range; the all-equal corner). slice / indices_at: every shape rank<=4 len<=3 (<=4 thorough) + an axis of length 5 + rank 0 and zero-length axes x every range 0<=start,end<=len+1 (arrays of <=12 elements; larger: every start x windows 0..shape[0]+2 and the ends len-1,len,len+1,start-1) x every index list of length<=3 over 0..=shape[0], reversed/doubled full lists, far-out values; + seeded random rank<=5 len<=6; big shapes: a grid of starts x windows around 0,1,2,shape[0]-1..+1,row size,middle,end and full/reversed/doubled/strided/random index lists. EVERY case is executed on the plain Array<i64> receiver (the compared answer), a second time, on Ok(array) through the Result-receiver impl (methods; the operators have none), and on the u8 / i8 / bool / f64 (tag 0 = -0.0, bit-wise) images (arrays <= 300 elements: also u16, i32, f32, usize, String, all on both receivers); any divergence fails the case. distinct = distinct case lines; non-trivial = array with >=2 axes longer than 1" });
+        rule: "exhaustive: every shape (rank<=4 len<=3 quick / len<=4 thorough; rank 5 len<=2 / <=3) + zero-length axes in every position x every flat index 0..len+1 x every coordinate vector of the box enlarged by one per axis, wrong-length vectors, far-out values; + seeded random shapes rank<=5 len<=6. Big shapes (lib big_shapes: axis lengths 7..17, element counts up to 4900; every axis length 7..17 in leading/inner/trailing position of rank 1..3; power-of-two axis lengths 8..2048 in non-leading positions; rank 5; seeded random rank<=5 len<=20 (thorough <=40)): every flat index 0..len+1, every in-range coordinate vector and the one-off border (one component = its axis length, the others in range; the all-equal corner). slice / indices_at: every shape rank<=4 len<=3 (<=4 thorough) + an axis of length 5 + rank 0 and zero-length axes x every range 0<=start,end<=len+1 (arrays of <=12 elements; larger: every start x windows 0..shape[0]+2 and the ends len-1,len,len+1,start-1) x every index list of length<=3 over 0..=shape[0], reversed/doubled full lists, far-out values; + seeded random rank<=5 len<=6; big shapes: a grid of starts x windows around 0,1,2,shape[0]-1..+1,row size,middle,end and full/reversed/doubled/strided/random index lists. EVERY case is executed on the plain Array<i64> receiver (the compared answer), a second time, on Ok(array) through the Result-receiver impl (methods; the operators have none), and on the u8 / i8 / bool / f64 (tag 0 = -0.0, bit-wise) images (arrays <= 300 elements: also u16, i32, f32, usize, String, all on both receivers); any divergence fails the case. PART 2: hidden state - groups of shapes that collide under weak polynomial hashes (multipliers 31..257, any seed, across ranks), 8-/16-bit packed axis lengths and order-/grouping-blind fingerprints are probed with every operation interleaved round-robin (both orders), colliding coordinate vectors / ranges / index lists and permutations on one array, and EVERY case re-runs the previous case after its own first call and demands the previous answer (A-B-A); exact values - narrowing images c+2^8, c+2^16, c+2^32, c+3*2^32 of every coordinate component, flat position, range end and index-list entry, each failing call directly followed by the valid one; exact lengths - every axis length 1..300 in trailing ([2,d]), inner ([3,d,2]) and leading ([d,2]) position with every flat position (thorough: to 1000 and sampled to 5000, [5,d], [2,2,d]), primes and 31/37/49/1000/1001 in rank 1..3; ranks 6..8 (full enlarged box on 2^6, 1-2-1-2-1-2-1, ...); huge shapes (16 384..196 611 elements, axes of 65 537 / 70 000, rank 14) with sampled positions (first/last 40, every multiple of 4096 and of every stride +-1, seeded random) answered by the model directly (its index model is linear), slice / indices_at there only where the quadratic model is affordable. distinct = distinct case lines; non-trivial = array with >=2 axes longer than 1" });
 }
